@@ -127,6 +127,11 @@ bi383_next(bitint_iter_t *restrict iter, const bitint383_t *bi)
 			for (; !(tmp & 0b1U); ip++, tmp >>= 1U);
 			res = ij * POS_BITZ + ip;
 			*iter = res + 1U;
+			if (UNLIKELY(*iter == countof(bi->pos) * POS_BITZ)) {
+				/* that was the very last positive, go straight
+				 * to the negatives, their 0 has been dealt with */
+				(*iter)++;
+			}
 		}
 	} else if (*iter > countof(bi->pos) * POS_BITZ &&
 		   *iter < countof(bi->neg) * NEG_BITZ +
@@ -258,6 +263,11 @@ bi447_next(bitint_iter_t *restrict iter, const bitint447_t *bi)
 			for (; !(tmp & 0b1U); ip++, tmp >>= 1U);
 			res = ij * POS_BITZ + ip;
 			*iter = res + 1U;
+			if (UNLIKELY(*iter == countof(bi->pos) * POS_BITZ)) {
+				/* that was the very last positive, go straight
+				 * to the negatives, their 0 has been dealt with */
+				(*iter)++;
+			}
 		}
 	} else if (*iter > countof(bi->pos) * POS_BITZ &&
 		   *iter < countof(bi->pos) * NEG_BITZ +
